@@ -974,6 +974,11 @@ func runC18(c *Ctx) {
 	}
 	if h != nil {
 		r.Funcs[c.FuncKey(h)] = true
+		// the handler may only hand over to one unexported method of the client that does the sending
+		if hb := c.soleDelegate(h); hb != nil {
+			h = hb
+			r.Funcs[c.FuncKey(h)] = true
+		}
 		byName := map[string][]ssa.CallInstruction{}
 		for _, cs := range CallSites(h) {
 			cal := cs.Common().StaticCallee()
@@ -3574,4 +3579,37 @@ func (c *Ctx) newTrackerForMe(call *ssa.Call, me ssa.Value, depth int) (bool, st
 		return false, c.FuncKey(cal) + " has no return"
 	}
 	return ok, why
+}
+
+// soleDelegate: fn does nothing but call one unexported method of its receiver
+// (a plain call, outside any branch, that no other function makes): that
+// method; otherwise nil.
+func (c *Ctx) soleDelegate(fn *ssa.Function) *ssa.Function {
+	if fn == nil || len(fn.Blocks) != 1 || len(fn.Params) == 0 {
+		return nil
+	}
+	var only *ssa.Call
+	n := 0
+	other := false
+	funcInstrs(fn, func(in ssa.Instruction) {
+		switch t := in.(type) {
+		case *ssa.Call:
+			n++
+			only = t
+		case *ssa.Return, *ssa.DebugRef:
+		default:
+			other = true
+		}
+	})
+	if n != 1 || other || only == nil || only.Call.IsInvoke() {
+		return nil
+	}
+	h := only.Call.StaticCallee()
+	if h == nil || !c.InModuleFn(h) || h.Package() != fn.Package() || h.Blocks == nil || (h.Object() != nil && h.Object().Exported()) || addrTaken(h) {
+		return nil
+	}
+	if len(only.Call.Args) == 0 || only.Call.Args[0] != ssa.Value(fn.Params[0]) || len(c.staticCallers(h)) != 1 {
+		return nil
+	}
+	return h
 }
